@@ -13,7 +13,7 @@ VARIABLE l
 Kind == [LdIn |-> "loaded.in", LdGet |-> "loaded.get", LgIn |-> "loading.in", LgGet |-> "loading.get",
          Join |-> "join", Joined |-> "joined", LgPop |-> "loading.pop", Pub |-> "loaded.set",
          DfLdIn |-> "loaded.in", DfLgIn |-> "loading.in", DfSet |-> "loading.set", DfGet |-> "loading.get",
-         DfStart |-> "start", MBegin |-> "begin", TBegin |-> "begin"]
+         DfStart |-> "start", MBegin |-> "begin", TBegin |-> "begin", RfClear |-> "loaded.clear"]
 IsAccess(p) == pc[p] \in DOMAIN Kind
 IsLocal(p) == pc[p] \notin DOMAIN Kind /\ pc[p] \notin {"Done", "Halt", "DHalt"}
 \* the argument the model's process would use at its current label
